@@ -10,6 +10,7 @@ INTERFACE (used by C02, C03; usable by C01, C05, C08, C09, C35)
     obs.offsets(code)        -> set of instruction offsets of INSTRUCTION events in ``code``
     obs.instr_lines(code)    -> lines of those instructions (offset -> ``co_positions``; location-less ones dropped)
     obs.branches(code)       -> set of (source offset, destination offset) of BRANCH events
+    obs.branch_count(code, src) -> number of BRANCH events of the jump at offset ``src``
     obs.started(code)        -> True if a PY_START (function entry) or PY_RESUME was seen for ``code``
     obs.entered(code)        -> started, or an instruction of it was seen, or a monitored caller CALLed a function with
                                 this code (a generator function that is called but never iterated executes only its
@@ -24,12 +25,15 @@ The code objects must be the *uninstrumented* ones that are executed inside the 
 pass ``all_code_objects(code)``, and execute that very code object.
 
 Facts about CPython 3.12 that shaped the interface (each was observed with a probe):
+* A generator function that is called but never iterated executes only its prologue: no event at all is emitted for
+  its code object (PY_START comes with the first ``next()``), although pynguin's probes at the start of the code object
+  have run -> ``entered`` also uses CALL events of monitored callers and ``note_called``.
 * LINE events are not emitted for the generator prologue (``RETURN_GENERATOR``/``POP_TOP`` before ``RESUME``) and not for
   ``RESUME`` itself, although these instructions carry a line and are executed -> ``lines_lo`` (LINE events) is a lower
   bound, ``lines_hi`` (lines of all INSTRUCTION events + ``co_firstlineno`` of every code object entered) an upper
   bound of "the lines that were executed".
 * An exhausted ``FOR_ITER`` jumps *behind* the ``END_FOR`` its argument points at: classify a BRANCH event by
-  comparing its destination with the fall-through offset (``fallthrough_offsets``), never with the jump target.
+  comparing its destination with the fall-through offset (``conditional_jumps(code)[k]["fall"]``), never with the jump target.
 """
 
 from __future__ import annotations
@@ -62,14 +66,16 @@ def conditional_jumps(code: CodeType) -> list[dict[str, Any]]:
     """The conditional jumps / ``FOR_ITER`` of a code object in linear order.
 
     Each entry: {"offset", "opname", "target" (jump target offset), "fall" (offset of the next instruction that is
-    not a CACHE entry, i.e. where execution continues when the jump is not taken), "line"}.
+    not a CACHE entry, i.e. where execution continues when the jump is not taken), "prev" (opname of the instruction in
+    front of the jump, e.g. COMPARE_OP / CONTAINS_OP / IS_OP), "line"}.
     """
     instrs = list(dis.get_instructions(code))
     out = []
     for i, ins in enumerate(instrs):
         if ins.opname in COND_JUMPS:
             fall = instrs[i + 1].offset if i + 1 < len(instrs) else None
-            out.append({"offset": ins.offset, "opname": ins.opname, "target": ins.argval, "fall": fall,
+            prev = instrs[i - 1].opname if i > 0 else None
+            out.append({"offset": ins.offset, "opname": ins.opname, "target": ins.argval, "fall": fall, "prev": prev,
                         "line": ins.positions.lineno if ins.positions else None})
     return out
 
@@ -82,6 +88,7 @@ class Observation:
         self.lines: dict[CodeType, set[int]] = {}
         self.instrs: dict[CodeType, set[int]] = {}
         self.branch: dict[CodeType, set[tuple[int, int]]] = {}
+        self.branch_n: dict[CodeType, dict[int, int]] = {}
         self.starts: dict[CodeType, int] = {}
         self.called: dict[CodeType, int] = {}
 
@@ -101,6 +108,10 @@ class Observation:
 
     def branches(self, code: CodeType) -> set[tuple[int, int]]:
         return set(self.branch.get(code, ()))
+
+    def branch_count(self, code: CodeType, src: int) -> int:
+        """How many BRANCH events the jump at offset ``src`` produced (= how often the jump was executed)."""
+        return self.branch_n.get(code, {}).get(src, 0)
 
     def started(self, code: CodeType) -> bool:
         return self.starts.get(code, 0) > 0
@@ -152,6 +163,8 @@ class Monitor:
         obs = self._cur
         if obs is not None and id(code) in self._ids:
             obs.branch.setdefault(code, set()).add((src, dst))
+            counts = obs.branch_n.setdefault(code, {})
+            counts[src] = counts.get(src, 0) + 1
 
     def _on_start(self, code: CodeType, offset: int) -> None:
         obs = self._cur
